@@ -43,19 +43,35 @@ Section Ligero.
   Definition tensor_uni (z : F) (n_cols n_rows : nat) : list F * list F :=
     (powers z n_cols, powers (fpow z n_cols) n_rows).
 
+  (* MultilinearLigero::tensor: tensor_vec of the two parts of the point, split at log2 (ceiling) of the row length *)
+  Definition tensor_vec (values : list F) : list F :=
+    fold_left (fun layer v => map (fun e => e * (1 - v)) layer ++ map (fun e => e * v) layer) values [1].
+  Definition tensor_ml (point : list F) (n_cols : nat) : res (list F * list F) :=
+    let split := Nat.log2_up n_cols in
+    if (length point <? split)%nat then Panic                       (* &point[..split] *)
+    else Ok (tensor_vec (firstn split point), tensor_vec (skipn split point)).
+
   Record LPath := mkLPth { lpt_index : nat; lpt_intact : bool }.
   Record LProof := mkLPf { lf_paths : list LPath; lf_v : list F; lf_cols : list (list F); lf_wf : option (list F) }.
 
-  (* open for one committed matrix: r = the squeezed well-formedness challenges (used only with wf), idx = the queried
-     column indices *)
-  Definition l_open (wf : bool) (n_rows n_cols n_ext : nat) (omega : F) (rows : list (list F)) (z : F)
+  (* open for one committed matrix, b = the left-multiplying vector: r = the squeezed well-formedness challenges (used
+     only with wf), idx = the queried column indices *)
+  Definition l_open_g (wf : bool) (n_cols n_ext : nat) (omega : F) (rows : list (list F)) (b : list F)
              (r : list F) (idx : list nat) : res LProof :=
     let ext := map (encode omega n_ext) rows in
-    let '(a, b) := tensor_uni z n_cols n_rows in
     do wfv <- (if wf then do v <- row_mul rows n_cols r; Ok (Some v) else Ok None);
     do v <- row_mul rows n_cols b;
     if existsb (fun i => n_ext <=? i)%nat idx then Panic else
     Ok {| lf_paths := map (fun i => mkLPth i true) idx; lf_v := v; lf_cols := map (fun i => col i ext) idx; lf_wf := wfv |}.
+
+  Definition l_open (wf : bool) (n_rows n_cols n_ext : nat) (omega : F) (rows : list (list F)) (z : F)
+             (r : list F) (idx : list nat) : res LProof :=
+    l_open_g wf n_cols n_ext omega rows (snd (tensor_uni z n_cols n_rows)) r idx.
+
+  Definition l_open_ml (wf : bool) (n_cols n_ext : nat) (omega : F) (rows : list (list F)) (point : list F)
+             (r : list F) (idx : list nat) : res LProof :=
+    do ab <- tensor_ml point n_cols;
+    l_open_g wf n_cols n_ext omega rows (snd ab) r idx.
 
   Fixpoint list_feqb (a b : list F) : bool :=
     match a, b with
@@ -96,7 +112,7 @@ Section Ligero.
       end
     end.
 
-  Definition l_check (wf : bool) (n_rows n_cols n_ext : nat) (omega : F) (cext : list (list F)) (z value : F)
+  Definition l_check_g (wf : bool) (n_cols n_ext : nat) (omega : F) (cext : list (list F)) (a b : list F) (value : F)
              (pf : LProof) (r : list F) (idx : list nat) : res bool :=
     if negb (length (lf_v pf) =? n_cols)%nat then Err EInvalidCommitment else
     do out <- (if wf then
@@ -107,11 +123,28 @@ Section Ligero.
                else Ok None);
     do _ <- path_loop cext (lf_cols pf) idx (lf_paths pf);
     let w := encode omega n_ext (lf_v pf) in
-    let '(a, b) := tensor_uni z n_cols n_rows in
     let vecs := match out with
                 | Some wfv => [(r, encode omega n_ext wfv); (b, w)]
                 | None => [(b, w)]
                 end in
     do _ <- ip_loop vecs (lf_cols pf) idx;
     Ok (feqb (ip (lf_v pf) a) value).
+
+  Definition l_check (wf : bool) (n_rows n_cols n_ext : nat) (omega : F) (cext : list (list F)) (z value : F)
+             (pf : LProof) (r : list F) (idx : list nat) : res bool :=
+    l_check_g wf n_cols n_ext omega cext (fst (tensor_uni z n_cols n_rows)) (snd (tensor_uni z n_cols n_rows)) value pf r idx.
+
+  (* the multilinear verifier computes the tensor after the loops over the paths: a point that is too short aborts there *)
+  Definition l_check_ml (wf : bool) (n_cols n_ext : nat) (omega : F) (cext : list (list F)) (point : list F) (value : F)
+             (pf : LProof) (r : list F) (idx : list nat) : res bool :=
+    if negb (length (lf_v pf) =? n_cols)%nat then Err EInvalidCommitment else
+    do out <- (if wf then
+                 match lf_wf pf with
+                 | None => Err EInvalidCommitment
+                 | Some w => if negb (length w =? n_cols)%nat then Err EInvalidCommitment else Ok (Some w)
+                 end
+               else Ok None);
+    do _ <- path_loop cext (lf_cols pf) idx (lf_paths pf);
+    do ab <- tensor_ml point n_cols;
+    l_check_g wf n_cols n_ext omega cext (fst ab) (snd ab) value pf r idx.
 End Ligero.
